@@ -57,7 +57,21 @@ func (e *explorer) runDef(fam string, def m.Def, inputs []string) {
 	}
 	var d *lexer.StatefulDefinition
 	var err error
-	pan, _ := hx.Guard(func() { d, err = lexer.New(def.ToRules()) })
+	declared := def.ToRules()
+	pan, _ := hx.Guard(func() { d, err = lexer.New(declared) })
+	if e.prop == "C16" {
+		// the rule map handed to the constructor is the caller's: it is edited afterwards (a second dialect is
+		// derived from it in place); the definition and what it serialises to are not
+		for st, rs := range declared {
+			for i := range rs {
+				rs[i].Pattern = "EDITED"
+				rs[i].Name = "Edited"
+				rs[i].Action = nil
+			}
+			declared[st] = append(rs, lexer.Rule{Name: "More", Pattern: "more"})
+		}
+		declared["Another"] = []lexer.Rule{{Name: "Y", Pattern: "y"}}
+	}
 	if pan {
 		w.Count("defs_skipped:constructor panics (duplicate names with different patterns)", 1)
 		return
@@ -109,11 +123,18 @@ func (e *explorer) runDef(fam string, def m.Def, inputs []string) {
 			}
 			_ = later
 		}
-		for i, src := range []func() ([]byte, error){
+		srcs := []func() ([]byte, error){
 			func() ([]byte, error) { return json.Marshal(d) },
 			func() ([]byte, error) { return json.Marshal(def.ToRules()) },
-		} {
-			which := []string{"json.Marshal(definition)", "json.Marshal(rules)"}[i]
+		}
+		if fam == "names" {
+			// anything that depends on the iteration order of a map shows up only some of the time
+			for k := 0; k < 3; k++ {
+				srcs = append(srcs, srcs[0], srcs[1])
+			}
+		}
+		for i, src := range srcs {
+			which := []string{"json.Marshal(definition)", "json.Marshal(rules)"}[i%2]
 			var d2 *lexer.StatefulDefinition
 			var stage string
 			pan, msg := hx.Guard(func() {
